@@ -9,6 +9,7 @@ zero-labels (all label randomness, hence every combination of
 point-and-permute bits), every well-formed circuit, every input.
 -/
 import MpcVerif.Proofs.Garble
+import MpcVerif.Proofs.GarbleBig
 import MpcVerif.Model.LabelBV
 
 namespace Mpc
@@ -146,5 +147,150 @@ def exampleCircuit : Circuit :=
 example : exampleCircuit.WF = true := by decide
 example : exampleCircuit.outputsDefined = true := by decide
 example : exampleCircuit.compute [true, false] = [true, true] := by decide +kernel
+
+
+/-! ## The boundaries of "every circuit"
+
+The theorems above hold for every circuit: no size occurs in them.  The code
+has sizes: the `[4]ot.Label` stack table and its `(start, count)` slice, the
+table slab (`garbleScratchPool`: 2 labels per AND, 3 per OR, 1 per INV) with
+its running offset, the wire slice, the `uint32` tweak counter.  This section
+states, for every circuit, where the list model meets those buffers and
+counters (Model/GarbleBig.lean), and that the constant-stack loops which the
+driver executes on circuits with 2^16 .. 2^22 table labels / gates / wires are
+the model.  A non-vacuity example by `decide +kernel` is not possible at 10^6
+gates; the examples below are small, and the executed instances at 2^16 and
+2^20 (one below / on / one above, all gate kinds before and after the boundary)
+are run by the compiled driver against the real code on every check
+(harness/cmd/c01/ext.go). -/
+
+/-- The loops the driver executes on big circuits are the model: the
+tail-recursive gate loop, the array-based input encoding and plain evaluation. -/
+theorem C01_driver_paths (H : Hash L) (c : Circuit) (r : L) (inl : Nat → L) (x : List Bool) :
+    c.garbleTR H r inl = c.garble H r inl ∧
+    encodeInputsFast c (c.garble H r inl) x = encodeInputs c (c.garble H r inl) x ∧
+    c.computeFast x = c.compute x :=
+  ⟨garbleTR_eq c H r inl, encodeInputsFast_eq c _ x, computeFast_eq c x⟩
+
+example : exampleCircuit.computeFast [true, false] = [true, true] := by decide +kernel
+
+/-- The rows of a gate are the slice `table[start : start+count]` of the stack
+table that `garbleInto` fills, with `start = 1` for the row-reduced OR / INV
+tables, whose slot 0 - the row that is not transmitted - is all zero. -/
+theorem C01_rows_are_table_slice (H : Hash L) (r : L) (op : Op) (a b : WireL L) (id : Nat) :
+    (garbleCore H r op a b id).2 = tabSlice (garbleSlots H r op a b id) op.start op.rows ∧
+    ((op = .or ∨ op = .inv) → garbleSlots H r op a b id 0 = (LabelAlg.zero : L)) :=
+  ⟨garbleCore_rows_slice H r op a b id, garbleSlots_row0_zero H r op a b id⟩
+
+example : Op.or.start = 1 ∧ Op.or.rows = 3 ∧ Op.inv.start = 1 ∧ Op.inv.rows = 1 ∧
+    Op.and.start = 0 ∧ Op.and.rows = 2 := by decide
+
+/-- The table slab: for every circuit the gate loop writes exactly `slabSize`
+labels (no overflow, no unused tail), gate `i` owns the view
+`slab[slabOff i : slabOff i + rows(op i)]`, the views follow one another, and
+reading a view back gives the gate's table - wherever in the slab it lies. -/
+theorem C01_slab_exact (H : Hash L) (c : Circuit) (r : L) (inl : Nat → L) :
+    (c.garble H r inl).slab.length = slabSize c.gates ∧
+    slabOff c.gates c.gates.length = slabSize c.gates ∧
+    ∀ i (h : i < c.gates.length),
+      slabOff c.gates (i + 1) = slabOff c.gates i + (c.gates[i]).op.rows ∧
+      (c.garble H r inl).rows[i]? =
+        some (slabView (c.garble H r inl).slab (slabOff c.gates i) (c.gates[i]).op.rows) := by
+  refine ⟨garble_slab_length c H r inl, slabOff_length c.gates, fun i h => ⟨slabOff_succ c.gates i h, ?_⟩⟩
+  rw [garble_slab_view c H r inl i h]
+  exact List.getElem?_eq_getElem _
+
+example : slabSize exampleCircuit.gates = 8 ∧ slabOff exampleCircuit.gates 2 = 5 := by decide
+
+/-- Structural self-check of a garbling: the number of transmitted rows per
+gate kind (and hence their total) is fixed by the circuit alone. -/
+theorem C01_rows_per_kind (H : Hash L) (c : Circuit) (r : L) (inl : Nat → L) (k : Op) :
+    rowsOfKind k c.gates (c.garble H r inl).rows = rowsOfKindSpec k c.gates ∧
+    rowsOfKindSpec .and c.gates + rowsOfKindSpec .or c.gates + rowsOfKindSpec .inv c.gates +
+      rowsOfKindSpec .xor c.gates + rowsOfKindSpec .xnor c.gates = slabSize c.gates := by
+  refine ⟨?_, rowsOfKindSpec_total c.gates⟩
+  simp only [Circuit.garble]
+  exact rowsOfKind_garbleGates k H r c.gates _ 0
+
+example : rowsOfKindSpec .and exampleCircuit.gates = 4 ∧ rowsOfKindSpec .or exampleCircuit.gates = 3 ∧
+    rowsOfKindSpec .inv exampleCircuit.gates = 1 ∧ rowsOfKindSpec .xor exampleCircuit.gates = 0 := by decide
+
+/-- The tweak counter.  The model counts tweaks in `Nat`, the code in a
+`uint32`: at every gate of every circuit the `uint32` counter is the `Nat`
+counter mod 2^32, and as long as the circuit consumes fewer than 2^32 tweaks
+(fewer than 2^31 AND gates) the two are equal at every gate. -/
+theorem C01_tweak_counter_u32 (gs : List Gate) :
+    (∀ i, tweaksU32 (gs.take i) 0 = tweakTotal (gs.take i) % 2 ^ 32) ∧
+    (tweakTotal gs < 2 ^ 32 → ∀ i, tweaksU32 (gs.take i) 0 = tweakTotal (gs.take i)) := by
+  constructor
+  · intro i
+    simpa using tweaksU32_mod (gs.take i) 0
+  · intro h i
+    have := tweakTotal_take_le gs i
+    exact (tweaksU32_exact (gs.take i) 0 (by omega)).trans (by simp)
+
+example : tweakTotal exampleCircuit.gates = 6 ∧ tweaksU32 exampleCircuit.gates 0 = 6 := by decide
+
+/-- The executed hash functions see the counter only mod 2^32 (`ot.NewTweak`
+takes a `uint32`), so garbling with the `Nat` counter is garbling with the
+wrapping counter of the code, for every circuit. -/
+theorem C01_tweak_hash_mod (π : BitVec 128 → BitVec 128) (x a b : BitVec 128) (t : Nat) :
+    (hashOf π).h1 x (t % 2 ^ 32) = (hashOf π).h1 x t ∧
+    (hashOf π).h2 a b (t % 2 ^ 32) = (hashOf π).h2 a b t := by
+  simp [hashOf, makeKHalf, makeK, tweak]
+
+theorem tweakTotal_replicate_and (n : Nat) (a b o : Nat) :
+    tweakTotal (List.replicate n ⟨.and, a, b, o⟩) = 2 * n := by
+  induction n with
+  | zero => simp [tweakTotal]
+  | succ n ih =>
+    simp only [tweakTotal, List.replicate_succ, List.map_cons, List.sum_cons] at ih ⊢
+    rw [ih]
+    simp only [Op.tweaks]
+    omega
+
+theorem tweaksU32_replicate_and (n : Nat) (a b o : Nat) :
+    tweaksU32 (List.replicate n ⟨.and, a, b, o⟩) 0 = (2 * n) % 2 ^ 32 := by
+  have := tweaksU32_mod (List.replicate n ⟨.and, a, b, o⟩) 0
+  rw [tweakTotal_replicate_and] at this
+  simpa using this
+
+/-- Witness for the bound: two gates 2^32 tweaks apart share their tweak (the
+hash inputs coincide), and after `n = 2^31` AND gates the `uint32` counter is
+back at 0 while the `Nat` counter is 2^32.  Correctness (C01) does not depend
+on tweaks being distinct - the theorems hold for every `H` - but this is the
+size at which the model's counter and the code's counter part. -/
+theorem C01_tweak_wrap_shares (π : BitVec 128 → BitVec 128) (x a b : BitVec 128) (t : Nat) :
+    (hashOf π).h1 x (t + 2 ^ 32) = (hashOf π).h1 x t ∧
+    (hashOf π).h2 a b (t + 2 ^ 32) = (hashOf π).h2 a b t ∧
+    ∃ n, tweaksU32 (List.replicate n ⟨.and, 0, 1, 2⟩) 0 = 0 ∧
+      tweakTotal (List.replicate n ⟨.and, 0, 1, 2⟩) = 2 ^ 32 := by
+  refine ⟨?_, ?_, 2 ^ 31, ?_, ?_⟩
+  · simp [hashOf, makeKHalf, tweak]
+  · simp [hashOf, makeK, tweak]
+  · rw [tweaksU32_replicate_and]
+  · rw [tweakTotal_replicate_and]
+
+example : tweaksU32 (List.replicate 3 ⟨.and, 0, 1, 2⟩) 0 = 6 := by decide
+
+/-- Local characterisation of a garbling (the tie at sizes where garbling the
+whole circuit in the model does not fit the budget): in a circuit in which
+every gate writes a fresh wire, the output pair and the table of gate `i` of
+ANY garbling are `garbleCore` on the final pairs of the gate's input wires,
+with the tweak the counter has when the loop reaches the gate.  The harness
+samples gates of the real garbling (around every buffer boundary) and the
+driver recomputes exactly this step. -/
+theorem C01_garble_local (H : Hash L) (c : Circuit) (r : L) (inl : Nat → L)
+    (hsa : c.singleAssign) (i : Nat) (h : i < c.gates.length) :
+    c.localStep H r (c.garble H r inl).wires i =
+      ((c.garble H r inl).wires.get (c.gates[i]).out, (c.garble H r inl).rows[i]?.getD []) ∧
+    (tweakPrefix c.gates).getD i 0 = tweakTotal (c.gates.take i) :=
+  ⟨garble_local c H r inl hsa i h, tweakPrefix_getD c.gates i h⟩
+
+instance (c : Circuit) : Decidable c.singleAssign := by
+  unfold Circuit.singleAssign; infer_instance
+
+example : exampleCircuit.singleAssign := by decide
+example : tweakPrefix exampleCircuit.gates = #[0, 2, 3, 4, 4, 4] := by decide +kernel
 
 end Mpc
